@@ -73,6 +73,14 @@ def gen_sessions(rng, count):
     out.append(dict(id="e2", tab=4, file=None, expr=None, stdin=["w = 2;;w * 3", ";w", "w;;", ""], end="exit", after=[]))
     out.append(dict(id="r8", tab=4, file="poly(x) = x*x + 1\ncpa = poly\ncpb = poly\ncpc = poly\ncpd = poly\n", expr="delete poly; cpa; delete cpb; cpc(1,2)", stdin=None))
     out.append(dict(id="r9", tab=4, file=None, expr=None, stdin=["poly(x) = x*x + 1", "cpa = poly", "cpb = poly", "cpc = poly", "delete poly", "delete cpa(x)", "cpb"], end=None, after=[]))
+    loc = ["zc = 2+i", "w = 1", "0+⌈zc⌉", "⌊zc⌋ + 1", "   1/0", "w + nope", "sin(1, 2)", "  5 m + 1", "[1, 5 m]", "2.5!", "3(4)", "1 m as kg", "pi = 3", "delete nope", "⌈[1]⌉", "|sin|", "inverse([1,2;2,4])"]
+    out.append(dict(id="l0", tab=4, file="\n".join(loc) + "\n", expr="w", stdin=None))
+    out.append(dict(id="l1", tab=4, file=None, expr="\n".join(loc), stdin=None))
+    out.append(dict(id="l2", tab=4, file=None, expr=None, stdin=loc, end="exit", after=[]))
+    out.append(dict(id="l3", tab=4, file="\n".join(loc[:2]) + "\n", expr=None, stdin=loc[2:], end=None, after=[]))
+    ar = "mf(x) = x; mf(x, y, z) = x; mf(a1, a2, a3, a4, a5) = 1; mf(p, q, r, s, tt, u, v) = 2; mf(a1, a2, a3, a4, a5, a6, a7, a8, a9) = 3; mf(1, 2); delete mf(u, v); mf(); mf; mf(1,2,3,4)"
+    out.append(dict(id="m0", tab=4, file=None, expr=ar, stdin=None))
+    out.append(dict(id="m1", tab=4, file=None, expr=None, stdin=ar.split("; "), end=None, after=[]))
     out.append(dict(id="w0", tab=4, file=None, expr="fib(0) = 0; fib(1) = 1; fib(k) = fib(k-1) + fib(k-2); fib(26); 1 + 1", stdin=None))
     out.append(dict(id="x0", tab=4, file=None, expr=None, stdin=["exit = 5", "exit * 2", "Exit + 1", "EXIT as km", "exit_code = 1", "exits", "quit", "q", "e", "ex", "exi", "bye", "x = exit", "x"], end="exit", after=["x"]))
     out.append(dict(id="x1", tab=4, file=None, expr=None, stdin=["w = 1  ", "1 +  ", "(w + 1  ", "\tw\t", "   1/0", "\t\t2 + nope", " \t #"], end=None, after=[]))
@@ -316,6 +324,11 @@ def mask(out):
     return LINE_RE.sub("Line _, Column _", out)
 
 
+def mask_line(out):
+    """one statement per line in every mode: only the line numbers may differ, the columns may not"""
+    return re.sub(r"Line \d+,", "Line _,", out)
+
+
 def cross_mode_check(ctx, rng, count):
     """the same well-formed statements in a preload file, as the expression, and line by line"""
     rep = ctx["rep"]
@@ -327,6 +340,10 @@ def cross_mode_check(ctx, rng, count):
     pa, _ = judges.do_stream(ctx, "cross-mode-wellformed", ("parset w%d_%d 4 %s" % (i, j, core.hx(l + "\n")) for i, ls in enumerate(progs) for j, l in enumerate(ls)),
                              props.proj_parse(False))
     progs = [ls for i, ls in enumerate(progs) if all((pa.get("w%d_%d" % (i, j)) or [""])[0].startswith("PARSE ok") for j in range(len(ls)))]
+    # every kind of located run-time diagnostic on a line of its own, with and without indentation
+    progs.append(["zc = 2+i", "w = 1", "0+⌈zc⌉", "⌊zc⌋ + 1", "   1/0", "w + nope", "sin(1, 2)", "  5 m + 1", "[1, 5 m]", "2.5!", "3(4)", "1 m as kg", "pi = 3", "delete nope", "⌈[1]⌉", "|sin|",
+                  "inverse([1,2;2,4])", "f(q) = q + 1", "f(3)", "f(q) = 2 * q", "f(3)", "sin(q) = q", "y = 3", "delete y", "y"])
+    progs.append(["f(q) = q + 1", "f(3)", "x = 5", "f(q) = 2 * x * q", "f(3)", "g2(3)", "g2(q) = q", "g2(3)", "clear", "f(1)", "f(q) = 7", "f(1)", "f = 3", "f(q) = 1", "f"])
     for lines in progs:
         tab = rng.choice([0, 4, 8])
         as_file = dict(id="m", tab=tab, file="\n".join(lines), expr="", stdin=None)
@@ -339,9 +356,11 @@ def cross_mode_check(ctx, rng, count):
         for s in (as_file, as_expr, as_expr2):
             s2 = dict(s)
             if s2["expr"] == "":
-                s2["expr"] = "; ".join(probe)
+                s2["expr"] = "\n".join(probe)              # one statement per line, as at the prompt
+            elif s2["expr"].endswith(";"):
+                s2["expr"] = s2["expr"] + "; ".join(probe)
             else:
-                s2["expr"] = s2["expr"] + ("\n" if not s2["expr"].endswith(";") else "") + "; ".join(probe)
+                s2["expr"] = s2["expr"] + "\n" + "\n".join(probe)
             outs.append(run_binary(ctx, s2))
         s3 = dict(as_lines, stdin=lines + probe)
         rc, so, se = run_binary(ctx, s3)
@@ -352,7 +371,9 @@ def cross_mode_check(ctx, rng, count):
         rep.evaluations += 4
         n += 1
         base = mask(outs[0][1])
-        if any(mask(o[1]) != base for o in outs[1:]):
+        # file, argument with line breaks and prompt put one statement per line: columns must agree too
+        per_line = [outs[0], outs[1], outs[3]]
+        if any(mask(o[1]) != base for o in outs[1:]) or any(mask_line(o[1]) != mask_line(per_line[0][1]) for o in per_line[1:]):
             bad += 1
             if bad <= 3:
                 rep.violation("front: file, argument and interactive mode disagree on %r" % lines, case="front-cross " + repr(lines),
